@@ -23,12 +23,12 @@ LEVEL_NOTE = ('Flux values from a fixed + seed-derived alphabet; the first file 
 RULE = ("cases: (n_ap, distance, n_wav, spectral order) configurations x stored unit A; executions: for every B: read A as B, write, read back as A, and for every C compare "
         "read(B-file, C) with read(A-file, C); non-trivial = distinct (configuration, A, B) with A != B")
 ASSUMPTIONS = ["positive finite fluxes and frequencies", "distance taken from the file header"]
-REQUIRED_CLASSES = ['error-column-in-other-unit', 'float32-file', 'distance-keyword-absent', 'pair-different-family', 'chain-ABA', 'chain-ABC', 'unsupported-refused', 'luminosity-with-distance!=1kpc', 'nu-decreasing-in-file', 'multi-aperture']
+REQUIRED_CLASSES = ['legacy-unit-strings', 'zero-flux-cell', 'error-column-in-other-unit', 'float32-file', 'distance-keyword-absent', 'pair-different-family', 'chain-ABA', 'chain-ABC', 'unsupported-refused', 'luminosity-with-distance!=1kpc', 'nu-decreasing-in-file', 'multi-aperture']
 TIMEOUT = {'quick': 300, 'thorough': 1800}
 
 UNITS = ['mJy', 'Jy', 'erg / (cm2 s)', 'erg / s', 'W / m2']
 FITS_UNIT = {'mJy': 'mJy', 'Jy': 'Jy', 'erg / (cm2 s)': 'erg s-1 cm-2', 'erg / s': 'erg s-1', 'W / m2': 'W m-2'}
-AXES = {'n_ap': [2, 0, 1, 5], 'n_wav': [3, 2, 10], 'order': ['nu-inc', 'nu-dec'], 'err_unit': ['same', 'other'], 'f32': [False, True]}
+AXES = {'n_ap': [2, 0, 1, 5], 'n_wav': [3, 2, 10], 'order': ['nu-inc', 'nu-dec'], 'err_unit': ['same', 'other'], 'f32': [False, True], 'legacy': [False, True], 'zero': [False, True]}
 DISTS = ['1kpc', '140pc', 'absent', '3.3e22cm', '1kpc']      # visited in this order inside every case (same grid, same units, other distance)
 DIST_CM = {'1kpc': pkgwriter.KPC_CM, '140pc': 140 * pkgwriter.KPC_CM / 1000.0, '3.3e22cm': 3.3e22, 'absent': pkgwriter.KPC_CM}
 
@@ -56,7 +56,7 @@ def evidence_extra(ctx):
 def _close(a, b, tol=1e-12):
     a = np.asarray(a, float)
     b = np.asarray(b, float)
-    return a.shape == b.shape and np.allclose(a, b, rtol=tol, atol=0)
+    return a.shape == b.shape and np.allclose(a, b, rtol=tol, atol=0, equal_nan=False)
 
 
 def run_case(ctx, case, rec, d):
@@ -86,6 +86,10 @@ def _one_distance(ctx, case, rec, d):
     na = max(n_ap, 1)
     base = np.array([[(a + 1) * 10.0 + w for w in range(n_wav)] for a in range(na)]) * rng.uniform(0.5, 2.0)
     err = base * 0.125
+    if case.get('zero'):
+        base = base.copy()
+        base[0, n_wav // 2] = 0.0          # one flux is exactly zero (its error is not)
+        rec.cls('zero-flux-cell')
     ap = None if n_ap == 0 else 100.0 * 10.0 ** np.arange(n_ap)
     if n_ap >= 2:
         rec.cls('multi-aperture')
@@ -99,8 +103,15 @@ def _one_distance(ctx, case, rec, d):
         base = base.astype(np.float32).astype(float)
         err = (err * efac).astype(np.float32).astype(float) / efac
         rec.cls('float32-file')
-    pkgwriter.write_sed_file(d, 'm', wav, base, err * efac, apertures_au=ap, unit=FITS_UNIT[A], err_unit=FITS_UNIT[eu], float32=bool(case.get('f32')),
-                             distance_cm=None if case['dist'] == 'absent' else dist, filename='a.fits')
+    unit_str, eunit_str, extra = FITS_UNIT[A], FITS_UNIT[eu], {}
+    if case.get('legacy') and A in ('mJy', 'erg / (cm2 s)'):
+        # the unit spellings of the format description (MICRONS, HZ, MJY, ergs/cm^2/s)
+        unit_str = {'mJy': 'MJY', 'erg / (cm2 s)': 'ergs/cm^2/s'}[A]
+        eunit_str = unit_str if eu == A else eunit_str
+        extra = {'wav_unit': 'MICRONS', 'freq_unit': 'HZ'}
+        rec.cls('legacy-unit-strings')
+    pkgwriter.write_sed_file(d, 'm', wav, base, err * efac, apertures_au=ap, unit=unit_str, err_unit=eunit_str, float32=bool(case.get('f32')),
+                             distance_cm=None if case['dist'] == 'absent' else dist, filename='a.fits', **extra)
     fa = os.path.join(d, 'seds', 'a.fits')
     if case.get('f32'):
         nu = pkgwriter.nu_of_wav_micron(wav).astype(np.float32).astype(float)      # the frequencies as the single-precision file stores them
@@ -137,7 +148,7 @@ def _one_distance(ctx, case, rec, d):
             rec.cls('pair-different-family')
         if 'l' in (fa_, fb_) and fa_ != fb_ and case['dist'] != '1kpc':
             rec.cls('luminosity-with-distance!=1kpc')
-        rec.outcome((A, B, round(float(np.log10(expB[0, 0])), 6)))
+        rec.outcome((A, B, round(float(np.log10(expB[0, 0] + 1e-300)), 6)))
         if not (rb.flux.unit == uB and _close(rb.flux.value, expB, T) and _close(rb.error.value, expBe, T) and _close(rb.nu.to(u.Hz).value, nu_inc, max(T, 1e-12))):
             rec.violation('convert|%s->%s' % (fa_, fb_), sub, {'got': rb.flux.value[0][:4], 'expected': expB[0][:4], 'nu': nu_inc[:4], 'distance_cm': dist})
             continue
